@@ -245,7 +245,8 @@ class C38(Check):
     def excluded_by_construction(self, case):
         if in_canonical_plt_domain(case):
             return KNOWN_CANON
-        if in_tls_bsymbolic_domain(case):
+        from vlib.core import still_known
+        if in_tls_bsymbolic_domain(case) and still_known("C38", KNOWN_TLSBSYM):
             return KNOWN_TLSBSYM
         return None
 
